@@ -701,6 +701,12 @@ def _blank_result(task, error):
 
 
 def _worker(inq, outq):
+    try:    # die with the parent (a killed check must not leave workers behind)
+        import ctypes
+        import signal
+        ctypes.CDLL('libc.so.6', use_errno=True).prctl(1, signal.SIGKILL)
+    except Exception:
+        pass
     while True:
         t = inq.get()
         if t is None:
